@@ -66,7 +66,7 @@ def per_element_key_check(R, F, tx, prefix="C04.key.tx"):
         return False, kept
     vals = agg_field_operands(tx, "libp2p_kad::record::Record", "value")
     ta = Taint(tx, through="all")
-    inp = PL(tx, 1)
+    inp = PL(tx, 1, aliases=False)   # the parameter itself: `let mut v = input; v.retain(..)` makes v a whole alias that is then filtered in place
     flows = bool(vals) and bool(kept) and all(op_local(o) in ta.closure(inp) and op_local(o) not in ta.closure(inp, stop_at=kept) for _, _, o in vals)
     if not flows:
         R.viol(prefix + ".filter", "unfiltered", "a presented transaction can reach the persisted record without passing the key filter", tx, tx.lines[0])
